@@ -3,7 +3,10 @@
 Theorems: lean/CbProps/C15.lean on the scheduler machine CbModel/Sched.lean (bookkeeping invariant of every
 reachable state, FIFO discipline, no overtaking, a suspended task goes to the back, an awaiting task is not
 scheduled, the wait loop ends only when the target finished, sleep_never_early) + CbOblig.C15 (the deadline test
-and the deadline computation regenerated from the C++ are the modelled ones).
+and the deadline computation regenerated from the C++ are the modelled ones) + CbProps.C15RunLoop (the driver loop of
+run_event_loop() is round robin on tasks that neither spawn nor block: the trace is round 0, round 1, ...; every task gets exactly
+its steps; the first round is in queue order) + CbOblig.C15Run (the loop body of SimpleEventLoop::run(), regenerated from the C++,
+performs front / pop_front / step / push_back-if-continue in the modelled order).
 Tie: hook H3 — the interpreter's scheduler trace (spawn / cycle with queue snapshot / step / suspend / done /
 await / resume / yield) must equal the model's event sequence step for step, and stdout the model's output, on
 (1) an exhaustive family of small task sets, (2) random task programs; every program is run twice (determinism);
@@ -19,7 +22,9 @@ PID = "C15"
 THEOREMS = {"CbProps.C15": ["CbProps.C15." + t for t in [
     "reach_inv", "deterministic", "queue_fifo", "no_overtaking", "suspended_goes_to_back", "awaiting_task_not_scheduled",
     "wait_ends_when_target_finished", "sleep_never_early"]],
-    "CbOblig.C15": ["CbOblig.C15.sleep_test_is_modelled"]}
+    "CbOblig.C15": ["CbOblig.C15.sleep_test_is_modelled"],
+    "CbProps.C15RunLoop": ["CbProps.C15RunLoop." + t for t in ["run_is_round_robin", "run_steps_each_task_exactly", "run_first_round_is_queue_order"]],
+    "CbOblig.C15Run": ["CbOblig.C15Run.run_loop_is_modelled"]}
 
 
 def exhaustive(quick):
@@ -153,9 +158,9 @@ def rel_judge(ws, stdout, cls):
 
 def main(a):
     v = common.Verdict(PID, a.tier, a.seed)
-    common.run_translators(v, ["sleep"])
+    common.run_translators(v, ["sleep", "runloop"])
     has = os.path.exists(os.path.join(common.LEAN, "CbProps", "C15.lean"))
-    driver_ok, failed = common.lean_obligations(v, ["CbProofs"] + (["CbProps.C15"] if has else []) + ["CbOblig.C15"],
+    driver_ok, failed = common.lean_obligations(v, ["CbGen", "CbProofs"] + (["CbProps.C15", "CbProps.C15RunLoop"] if has else []) + ["CbOblig.C15", "CbOblig.C15Run"],
                                                 THEOREMS if has else {"CbOblig.C15": THEOREMS["CbOblig.C15"]})
     exe, blog = common.build_impl()
     if exe is None or not driver_ok:
